@@ -35,6 +35,11 @@ CHECKS = {
    "The harness polls receive futures by hand and drops them at generated suspension points; the sequence of results must equal the reference decode of each frame. All subsets of <= 12 suspension points of 30 small streams and every k for byte-at-a-time delivery are enumerated.",
    "Trusted: the simulated read half is itself cancel safe; reference as in C01. Only cancellation of the connection's own receive futures is covered here (the server's use of them is exercised by C08-C10).",
    "§3 C07"),
+ "C08": ("exploration", "vcheck",
+   "model-based property testing of server schedules (proptest, shrinking): deterministic simulation of Server::run (scripted listener / sockets / service, hand-rolled executor, one Poll = run to quiescence) with generated connection scripts and global event orders; exhaustive enumeration of all interleavings of chunk deliveries for 2 connections x 4 chunks and 3 connections x 2 chunks; oracle = per-connection sequential reference model + service-log monitor",
+   "1..4 scripted clients with 0..5 calls each (plain / oneway / error-producing, pipelined or split at arbitrary bytes) are delivered in a generated global order; at every quiescent point each client's received frames must equal (at frame boundaries) or be a prefix of (mid-frame) the sequential model of its own calls, carry only its own tag, and the service log per connection must equal its calls exactly once in order; the server future must stay pending.",
+   "Trusted: the simulated transports (a read returns Pending only when nothing was delivered), the scripted service as the definition of 'as decided by the service'. zlink serves a complete frame that is followed by a partial one only when the partial one completes; the statement does not speak about latency, so only a prefix is demanded at such points.",
+   "§3 C08"),
  "C06": ("exploration", "vcheck",
    "model-based property testing of chains (proptest, shrinking): generated flag sequences + conforming server scripts + trailing frames + chunkings, stream polled by hand; exhaustive enumeration of all flag sequences up to length 4 x 3 script families x 3 trailing counts x 6 chunkings; oracle = owed-reply model + reference decode + transport poll counter",
    "Chains of 1..6 calls over {plain, oneway, more} are sent through Connection::chain_call/append/send against a scripted transport that then stays silent; the single transport write must equal the calls' reference encodings, the stream must yield exactly the owed replies (as the reference classifies each frame) and then None without polling the transport, and a later receive_reply must still find every trailing frame.",
